@@ -19,55 +19,75 @@
 (* the rule is looked at from the second sweep on with the comparison cvg_criterion selects, and constrained_parafac has  *)
 (* one more, SILENT, exit between line and rule: the constraint error fell below tol_outer ("feasible").                   *)
 (*                                                                                                                          *)
+(* A fourth member, randomised_parafac, keeps the Tucker family's lines and first-check sweep but differs in ORDER and in   *)
+(* its rule: the callback (called once before the loop as well) runs right after the sweep, BEFORE the error is recorded   *)
+(* (and only a literal True stops), an error is recorded iff max_stagnation or tol is truthy, and the rule also fires      *)
+(* when the error has not improved on its running minimum for more than max_stagnation sweeps (counter `stag`).            *)
+(*                                                                                                                          *)
 (* The verbose log of a real run is a trace of this specification (IterLoopTrace.tla); steps that print nothing are        *)
 (* composed in front of the next printed event by the state functions below.                                              *)
 EXTENDS Naturals, Integers, Sequences, TLC
 
 CONSTANTS MaxLevel, LConfigs
 \* a configuration: [alg, cap (n_iter_max), tol (truthy), cb (callback installed), cbstops (it returns True at some sweep),
-\*                   signed (the rule is d < tol: an increase stops too; otherwise |d| < tol)]
+\*                   signed (the rule is d < tol: an increase stops too; otherwise |d| < tol),
+\*                   maxstag (randomised_parafac: max_stagnation; 0 elsewhere)]
 
-VARIABLE s      \* [c, it, pc, errs, lvl, exit, ncb (callback calls so far)]
+VARIABLE s      \* [c, it, pc, errs, lvl, exit, ncb (callback calls so far), stag (sweeps since the running minimum), minl (that minimum)]
 lvars == <<s>>
 
 TuckerFamily == {"tucker", "nn_tucker", "nn_tucker_hals"}
 RingFamily == {"tr_als", "tr_als_sampled"}
 CPFamily == {"nn_parafac", "nn_parafac_hals", "constrained_parafac"}
-Algs == TuckerFamily \cup RingFamily \cup CPFamily
+Rand == "rand_parafac"
+Algs == TuckerFamily \cup RingFamily \cup CPFamily \cup {Rand}
+CbFirst(a) == a = Rand                                       \* the callback sits between sweep and record
 FamilyOK(c) == /\ (c.alg \in TuckerFamily => ~c.signed /\ ~c.cb)
+               /\ (c.alg = Rand => ~c.signed)
+               /\ (c.alg # Rand => c.maxstag = 0)
                /\ (c.alg \in RingFamily => c.signed)
                /\ (c.alg \in CPFamily => ~c.cb)
                /\ (c.cbstops => c.cb)
 
-FirstCheck(a) == IF a \in TuckerFamily THEN 2 ELSE 1        \* first iteration index at which the rule is looked at
-RecordOn(c) == c.alg \in TuckerFamily \/ c.alg = "constrained_parafac" \/ c.tol \/ c.cb     \* an error is recorded for every sweep
+FirstCheck(a) == IF a \in TuckerFamily \cup {Rand} THEN 2 ELSE 1        \* first iteration index at which the rule is looked at
+RecordOn(c) == IF c.alg = Rand THEN c.tol \/ c.maxstag > 0
+               ELSE c.alg \in TuckerFamily \/ c.alg = "constrained_parafac" \/ c.tol \/ c.cb     \* an error is recorded for every sweep
 PrintDue(x) == \/ x.c.alg \in RingFamily                     \* (verbose runs) this sweep prints its line
                \/ x.c.alg \in TuckerFamily /\ x.it >= 2
+               \/ x.c.alg = Rand /\ RecordOn(x.c) /\ x.it >= 2
                \/ x.c.alg \in CPFamily /\ x.c.tol
 MayRise(a) == a = "tr_als_sampled"                           \* sampled least squares: the error of a sweep may exceed the last one
 LastOf(q) == q[Len(q)]
 
 \* the ring family calls an installed callback ONCE BEFORE the loop, with the error of the random start; what it returns is ignored
 \* and that error is not recorded (the first sweep has no "decrease")
-InitS(c, l) == [c |-> c, it |-> -1, pc |-> "top", errs |-> <<>>, lvl |-> l, exit |-> "none", ncb |-> IF c.cb THEN 1 ELSE 0]
+InitS(c, l) == [c |-> c, it |-> -1, pc |-> "top", errs |-> <<>>, lvl |-> l, exit |-> "none", ncb |-> IF c.cb THEN 1 ELSE 0,
+                stag |-> 0, minl |-> -1]
 
 \* ---- state functions ---------------------------------------------------------------------------------------------------
 StartOK(x) == x.pc = "top" /\ x.it + 1 < x.c.cap
 StartF(x) == [x EXCEPT !.it = x.it + 1, !.pc = "sweep"]
 
 SweepOK(x) == x.pc = "sweep"
-SweepF(x, new) == [x EXCEPT !.lvl = new, !.pc = "rec"]
+SweepF(x, new) == [x EXCEPT !.lvl = new, !.pc = IF CbFirst(x.c.alg) /\ x.c.cb THEN "cb" ELSE "rec"]
 
 RecOK(x) == x.pc = "rec"
-RecF(x, e) == [x EXCEPT !.errs = IF RecordOn(x.c) THEN Append(x.errs, e) ELSE x.errs, !.pc = "print"]
+\* (randomised_parafac: a new running minimum -- or none yet -- resets the stagnation counter to 0, anything else adds one)
+RecFI(x, e, improved) ==
+    [x EXCEPT !.errs = IF RecordOn(x.c) THEN Append(x.errs, e) ELSE x.errs, !.pc = "print",
+              !.stag = IF x.c.alg = Rand /\ RecordOn(x.c) THEN (IF improved THEN 0 ELSE x.stag + 1) ELSE x.stag,
+              !.minl = IF x.c.alg = Rand /\ RecordOn(x.c) /\ improved THEN e ELSE x.minl]
+RecF(x, e) == RecFI(x, e, x.minl = -1 \/ e < x.minl)
 
 PrintOK(x) == x.pc = "print"
-PrintF(x) == [x EXCEPT !.pc = IF x.c.cb THEN "cb" ELSE "tol"]
+PrintF(x) == [x EXCEPT !.pc = IF x.c.cb /\ ~CbFirst(x.c.alg) THEN "cb" ELSE "tol"]
 
 CbOK(x, stops) == x.pc = "cb" /\ x.c.cb /\ (stops => x.c.cbstops)
-CbF(x, stops) == IF stops THEN [x EXCEPT !.exit = "cbstop", !.pc = "done", !.ncb = x.ncb + 1] ELSE [x EXCEPT !.pc = "tol", !.ncb = x.ncb + 1]
+CbF(x, stops) == IF stops THEN [x EXCEPT !.exit = "cbstop", !.pc = "done", !.ncb = x.ncb + 1]
+                 ELSE [x EXCEPT !.pc = IF CbFirst(x.c.alg) THEN "rec" ELSE "tol", !.ncb = x.ncb + 1]
 
-RuleOn(x) == x.c.tol /\ x.it >= FirstCheck(x.c.alg)
+RuleOn(x) == (x.c.tol \/ (x.c.alg = Rand /\ x.c.maxstag > 0)) /\ x.it >= FirstCheck(x.c.alg)
+Stagnated(x) == x.c.alg = Rand /\ x.stag > 0 /\ x.stag > x.c.maxstag
 TolOK(x, conv) == x.pc = "tol" /\ (conv => (RuleOn(x) /\ Len(x.errs) >= 2))
 TolF(x, conv) == IF conv THEN [x EXCEPT !.exit = "converged", !.pc = "done"] ELSE [x EXCEPT !.pc = "top"]
 
@@ -81,8 +101,9 @@ CapF(x) == [x EXCEPT !.exit = "cap", !.pc = "done"]
 ----------------------------------------------------------------------------
 (* Design model.  Levels stand for error values; a sweep never raises the level unless the algorithm samples; the rule is    *)
 (* "no change" (|d| < tol) or, for a signed comparison, "no decrease" (d < tol).                                            *)
-Rule(x) == IF ~x.c.signed THEN x.errs[Len(x.errs) - 1] = LastOf(x.errs)
-           ELSE LastOf(x.errs) >= x.errs[Len(x.errs) - 1]
+TolRule(x) == x.c.tol /\ (IF ~x.c.signed THEN x.errs[Len(x.errs) - 1] = LastOf(x.errs)
+                          ELSE LastOf(x.errs) >= x.errs[Len(x.errs) - 1])
+Rule(x) == TolRule(x) \/ Stagnated(x)
 
 Init == \E c \in LConfigs, l \in 0..MaxLevel : s = InitS(c, l)
 Start == StartOK(s) /\ s' = StartF(s)
@@ -105,20 +126,30 @@ TypeOK == /\ s.c \in LConfigs /\ s.it \in -1..s.c.cap /\ s.pc \in {"top", "sweep
           /\ s.exit \in {"none", "cap", "converged", "cbstop", "feasible"} /\ s.lvl \in 0..MaxLevel
           /\ (s.pc = "done") = (s.exit # "none")
 \* one recorded error per completed sweep (none at all when nothing asks for it)
-LenLaw == Len(s.errs) = IF ~RecordOn(s.c) THEN 0
-                        ELSE IF s.pc \in {"sweep", "rec"} THEN s.it ELSE s.it + 1
+\* the error of sweep `it` is in the list (randomised_parafac calls back BEFORE recording, also when that call stops the run)
+Recorded(x) == \/ x.pc \in {"print", "tol", "top"}
+               \/ x.pc = "cb" /\ ~CbFirst(x.c.alg)
+               \/ x.pc = "done" /\ ~(CbFirst(x.c.alg) /\ x.exit = "cbstop")
+LenLaw == Len(s.errs) = IF ~RecordOn(s.c) THEN 0 ELSE IF Recorded(s) THEN s.it + 1 ELSE s.it
 \* the last recorded error is the error of the current iterate whenever a sweep is complete
-LastErrOwnsIterate == (RecordOn(s.c) /\ s.pc \in {"print", "cb", "tol", "top", "done"} /\ s.it >= 0) => LastOf(s.errs) = s.lvl
+LastErrOwnsIterate == (RecordOn(s.c) /\ Recorded(s) /\ s.it >= 0) => LastOf(s.errs) = s.lvl
 ErrsMonotone == MayRise(s.c.alg) \/ \A k \in 1..(Len(s.errs) - 1) : s.errs[k + 1] <= s.errs[k]
 \* every exit is justified; a rule exit has compared two errors of this run's own sweeps: at least three sweeps (Tucker family) / two (ring)
 ExitLaw == /\ (s.exit = "cap") => s.it + 1 >= s.c.cap
            /\ (s.exit = "cbstop") => (s.c.cb /\ s.c.cbstops)
-           /\ (s.exit = "converged") => (s.c.tol /\ s.it >= FirstCheck(s.c.alg) /\ Len(s.errs) >= 2 /\ Rule(s))
+           /\ (s.exit = "converged") => (RuleOn(s) /\ Len(s.errs) >= 2 /\ Rule(s))
            /\ (s.exit = "feasible") => (s.c.alg = "constrained_parafac" /\ s.c.tol /\ s.it >= 1)
 MinSweeps == (s.exit \in {"converged", "feasible"}) => s.it + 1 >= FirstCheck(s.c.alg) + 1
 \* the callback sees every completed sweep exactly once, after the pre-loop call
 CbCalls == s.ncb = IF ~s.c.cb THEN 0
+                   ELSE IF s.it = -1 THEN 1
+                   ELSE IF CbFirst(s.c.alg) THEN (IF s.pc \in {"sweep", "cb"} THEN s.it + 1 ELSE s.it + 2)
                    ELSE IF s.pc \in {"sweep", "rec", "print", "cb"} THEN s.it + 1 ELSE s.it + 2
+\* the stagnation counter counts the recorded sweeps since the running minimum
+StagLaw == (s.c.alg = Rand /\ RecordOn(s.c) /\ Len(s.errs) >= 1) =>
+              /\ s.minl = CHOOSE m \in {s.errs[k] : k \in 1..Len(s.errs)} : \A k \in 1..Len(s.errs) : m <= s.errs[k]
+              /\ s.stag <= Len(s.errs) - 1
+              /\ s.errs[Len(s.errs) - s.stag] = s.minl
 \* a zero budget does not sweep
 ZeroBudget == (s.c.cap = 0) => (s.it = -1 /\ s.errs = <<>>)
 \* never more sweeps than the budget
